@@ -246,9 +246,18 @@ class BehavioralRTLIRToVVisitorL1( bir.BehavioralRTLIRNodeVisitor ):
     assignment_op = '<=' if not node.blocking else '='
     tplt = '{target} {assignment_op} {value};'
 
-    return [ tplt.format(
-      target = target, assignment_op = assignment_op, value = value
-    ) for target in reversed(targets) ]
+    # The right-hand side of a chained assignment `a = b = rhs` is evaluated
+    # once: the last target gets the value, the other targets of a blocking
+    # assignment copy it from there (re-evaluating `rhs` after a target that
+    # it reads has been updated would see the new value).
+    stmts = [ tplt.format(
+      target = targets[-1], assignment_op = assignment_op, value = value
+    ) ]
+    source = targets[-1] if node.blocking else value
+    stmts += [ tplt.format(
+      target = target, assignment_op = assignment_op, value = source
+    ) for target in reversed(targets[:-1]) ]
+    return stmts
 
   # register_assign_LHS
 
